@@ -2,6 +2,8 @@
 Export of textX based models and metamodels to dot file.
 """
 
+import os
+from contextlib import suppress
 from dataclasses import dataclass
 from typing import Dict, Iterable, List, Union
 from typing import Optional as Opt
@@ -298,9 +300,27 @@ set namespaceSeparator .
         return f"{base.fqn} <|-- {special.fqn}\n"
 
 
+def _write_atomically(file_name, write):
+    """
+    Calls `write(f)` with a file object and makes the result visible as
+    `file_name` only when everything is written. If writing fails nothing is
+    left behind: no partial `file_name` and no temporary file.
+    """
+    tmp_name = f"{file_name}.{os.getpid()}.tmp"
+    try:
+        with open(tmp_name, "w", encoding="utf-8") as f:
+            write(f)
+        os.replace(tmp_name, file_name)
+    except BaseException:
+        with suppress(OSError):
+            os.remove(tmp_name)
+        raise
+
+
 def metamodel_export(metamodel, file_name, renderer=None):
-    with open(file_name, "w", encoding="utf-8") as f:
-        metamodel_export_tofile(metamodel, f, renderer)
+    _write_atomically(
+        file_name, lambda f: metamodel_export_tofile(metamodel, f, renderer)
+    )
 
 
 def metamodel_export_tofile(metamodel, f, renderer=None):
@@ -406,8 +426,7 @@ def model_export(model, file_name, repo=None):
     Returns:
         Nothing
     """
-    with open(file_name, "w", encoding="utf-8") as f:
-        model_export_to_file(f, model, repo)
+    _write_atomically(file_name, lambda f: model_export_to_file(f, model, repo))
 
 
 def model_export_to_file(f, model=None, repo=None):
